@@ -220,11 +220,18 @@ struct G {
 				ports.push_back((uint8_t) p);
 			}
 			bool extra = dp.flag();
+			// second shape: all aspects share one port with one value (listed first, last or not at all) and differ in a port of
+			// their own - still no aspect contained in another
+			int shared = dp.chance(100) ? (int) dp.pick(3) : 3;      // 0 first, 1 last, 2 mixed, 3 none
+			uint8_t shared_val = (uint8_t) dp.pick(2);
 			for (int i = 0; i < n; i++) {
 				DccAspect a;
 				a.id = rnames[i];
+				bool first = shared == 0 || (shared == 2 && (i & 1));
+				if (shared != 3 && first) a.ports.push_back({ports[(size_t) n], shared_val});
 				a.ports.push_back({ports[(size_t) i], (uint8_t) dp.pick(2)});
-				if (extra && i == n - 1) a.ports.push_back({ports[(size_t) n], (uint8_t) dp.pick(2)});
+				if (shared != 3 && !first) a.ports.push_back({ports[(size_t) n], shared_val});
+				if (shared == 3 && extra && i == n - 1) a.ports.push_back({ports[(size_t) n], (uint8_t) dp.pick(2)});
 				v.push_back(a);
 			}
 			return v;
